@@ -19,7 +19,7 @@ RULE = (
     "call: [valid_addr] / jmp: [valid_addr] in all-matches address mode. Non-trivial: >= 1 target exactly on or adjacent to a bound; distinct by canonical hash."
 )
 ASSUMPTIONS = ["conditional jumps and the q-suffixed spellings callq/jmpq are not mentioned by the statement: whatever JASM does with them is accepted", "targets are hexadecimal as objdump prints them"]
-FLOORS = {"target=min": 0.15, "target=max": 0.15, "target=min-1": 0.15, "target=max+1": 0.15, "has-indirect": 0.2, "has-nonbranch-number": 0.2, "min=max": 0.05}
+FLOORS = {"target=min": 0.15, "target=max": 0.15, "target=min-1": 0.15, "target=max+1": 0.15, "has-indirect": 0.2, "has-nonbranch-number": 0.2, "min=max": 0.05, "min=0": 0.06}
 
 
 def budget(tier):
@@ -40,7 +40,8 @@ def spell(draw, v, allow_upper=True):
 @st.composite
 def cases(draw):
     digits = draw(st.integers(1, 16))
-    lo = draw(st.integers(1, 16 ** digits - 1))
+    # a range starting at address 0 is the normal shape for relocatable objects (`call 0 <f>`); drawn explicitly, it is one point
+    lo = 0 if draw(st.integers(0, 7)) == 0 else draw(st.integers(1, 16 ** digits - 1))
     span = 0 if draw(st.integers(0, 5)) == 0 else draw(st.one_of(st.integers(1, 64), st.integers(1, 16 ** max(1, digits - 1))))
     hi = min(lo + span, 2 ** 64 - 2)
     lo = min(lo, hi)
@@ -106,6 +107,10 @@ def evaluate(case):
         ev.tags.append("has-nonbranch-number")
     if lo == hi:
         ev.tags.append("min=max")
+    if lo == 0:
+        ev.tags.append("min=0")
+        if any(i["kind"] == "direct" and i.get("T") == 0 for i in case["insts"]):
+            ev.tags.append("direct-target-0")
     for r, what in ((plain, "without-option"), (tagged, "with-option")):
         if r[0] == "inconclusive":
             ev.inconclusive += 1
